@@ -183,9 +183,9 @@ CLAIMS = {
   "technique": "Lean 4 proof (lock-set soundness for all executions of an abstract mutex model; lock policy decided by kernel computation over access facts regenerated from the source) + race-detector correspondence",
   "text": "guarded_accesses_are_ordered: in every execution of the abstract model (any number of threads, locks, locations, any length) two "
           "accesses to one location by different threads made under its guard are separated by the first thread's release and the second "
-          "thread's later acquisition of the guard. lock_discipline / policy_covered / exemptions_used: every access to a guarded field "
+          "thread's later acquisition of the guard. lock_discipline / policy_covered: every access to a guarded field "
           "in /repo's current source (lock sets regenerated from the syntax tree on every run) holds the guard the policy names or is a "
-          "listed exemption; the policy names only fields that exist and are written; no exemption is stale. Correspondence: race-"
+          "listed exemption; the policy names only fields that exist and are written. Correspondence: race-"
           "detector workloads (shared client against Ufs, flushes, connection churn, schedule perturbation).",
   "note": TB + "The link between the syntactic lock sets and the abstract model is the translator's soundness (trusted). Orderings by channels "
           "and goroutine creation (exempted accesses, unguarded-by-design fields) are argued in prose. The race detector only reports races "
